@@ -303,6 +303,7 @@ bool Json::Private::parseObject(Variant& result)
   if(!readToken())
     return false;
   HashMap<String, Variant>& object = result.toMap();
+  object.clear(); // result may already have been a map (parsing into a variable that is in use)
   String key;
   while(token.token != '}')
   {
@@ -336,6 +337,7 @@ bool Json::Private::parseArray(Variant& result)
   if(!readToken())
     return false;
   List<Variant>& list = result.toList();
+  list.clear(); // result may already have been a list (parsing into a variable that is in use)
   while(token.token != ']')
   {
     if(!parseValue(list.append(Variant())))
@@ -611,7 +613,8 @@ bool Json::parse(const char* data, Variant& result)
 
 bool Json::parse(const String& data, Variant& result)
 {
-  return parse((const char*)data, result);
+  String text(data); // keeps the text alive when it is owned by result
+  return parse((const char*)text, result);
 }
 
 String Json::toString(const Variant& data)
@@ -628,4 +631,8 @@ int Json::Parser::getErrorLine() const {return p->errorLine;}
 int Json::Parser::getErrorColumn() const {return p->errorColumn;}
 String Json::Parser::getErrorString() const {return p->errorString;}
 bool Json::Parser::parse(const char* data, Variant& result) {return p->parse(data, result);}
-bool Json::Parser::parse(const String& data, Variant& result) {return p->parse(data, result);}
+bool Json::Parser::parse(const String& data, Variant& result)
+{
+  String text(data); // keeps the text alive when it is owned by result
+  return p->parse(text, result);
+}
